@@ -110,6 +110,6 @@ def run(tier, build, replay=None):
         "correspondence_mismatches": mism,
     })
     out.assumptions = ["reconciliation assumes a supplied crypto_out_with_fee equal to amount + fee; nothing is assumed about small transfer fees "
-                       "(finding F8 is repaired; its replay corpus/C03/f8-dust-transfer-fee.json runs first)",
+                       "(finding F8 is repaired; its replay corpus/C07/f8-dust-transfer-fee.json runs first, whole history)",
                        "to-date cut assumes local dates monotone in time (finding F9)"]
     return out.finish(proofs, build)
